@@ -441,13 +441,18 @@ impl RealInode {
 
     // Create a symlink in self directory.
     fn symlink(&self, ctx: &Context, link_name: &str, filename: &str) -> Result<RealInode> {
+        self.symlink_cstr(ctx, utils::to_cstring(link_name)?.as_c_str(), filename)
+    }
+
+    // Same as symlink(), for link targets that are not necessarily valid UTF-8.
+    fn symlink_cstr(&self, ctx: &Context, link_name: &CStr, filename: &str) -> Result<RealInode> {
         if !self.in_upper_layer {
             return Err(Error::from_raw_os_error(libc::EROFS));
         }
 
         let entry = self.layer.symlink(
             ctx,
-            utils::to_cstring(link_name)?.as_c_str(),
+            link_name,
             self.inode,
             utils::to_cstring(filename)?.as_c_str(),
         )?;
@@ -1723,18 +1728,21 @@ impl OverlayFs {
             parent_node.create_upper_dir(ctx, None)?;
         }
 
-        // Read the linkname from lower layer.
+        // Read the linkname from lower layer. It is an arbitrary byte string, not necessarily
+        // valid UTF-8.
         let path = self_layer.readlink(ctx, self_inode)?;
-        // Convert path to &str.
-        let path =
-            std::str::from_utf8(&path).map_err(|_| Error::from_raw_os_error(libc::EINVAL))?;
+        let path = CString::new(path).map_err(|_| Error::from_raw_os_error(libc::EINVAL))?;
 
         let mut new_upper_real = None;
         parent_node.handle_upper_inode_locked(&mut |parent_upper_inode| -> Result<bool> {
             // We already create upper dir for parent_node above.
             let parent_real_inode =
                 parent_upper_inode.ok_or_else(|| Error::from_raw_os_error(libc::EROFS))?;
-            new_upper_real.replace(parent_real_inode.symlink(ctx, path, node.name.as_str())?);
+            new_upper_real.replace(parent_real_inode.symlink_cstr(
+                ctx,
+                path.as_c_str(),
+                node.name.as_str(),
+            )?);
             Ok(false)
         })?;
 
